@@ -6,6 +6,7 @@ import GqlVerif.Proofs.SerdeFuelWitness
 import GqlVerif.Proofs.SerdeFuelCodegen
 import GqlVerif.Proofs.AcyclicModulesClasses
 import GqlVerif.Proofs.ModuleOkInputsClasses
+import GqlVerif.Proofs.C01NestedK
 open GqlVerif.C17
 #print axioms search_guarded_eq
 #print axioms search_guarded_total
@@ -113,3 +114,6 @@ open GqlVerif.C17
 #print axioms GqlVerif.MOK.class_de_never_out_of_fuel_inputs
 #print axioms GqlVerif.MOK.class_de_fuel_indep_inputs
 #print axioms GqlVerif.MOK.class_roundtrip_never_out_of_fuel_inputs
+-- NestedOp: the module environment is acyclic, from the class alone (P45)
+#print axioms GqlVerif.C01N.nested_reachRanked
+#print axioms GqlVerif.C01N.nested_module_envOK
